@@ -131,6 +131,7 @@ class Walker(object):
         self.killdir = os.path.join(tmp, "kill")
         os.makedirs(self.killdir, exist_ok=True)
         self.killpath = os.path.join(self.killdir, "j")
+        self.tailpath = os.path.join(self.killdir, "tail")
         if model2 is not None:
             model2.new()                            # `load` keeps the APP_VERSION of the last `new`
         self.points = set()
@@ -203,7 +204,7 @@ class Walker(object):
         if img[0] is None:
             # no journal file at all (the model cannot express that): judged by the property monitor only
             cov.hit("points.journal_file_missing")
-            m = lib.judge_image(jm, self.scratch, img, op, old, allowed, tv_old)
+            m = lib.judge_image(jm, self.scratch, img, op, old, allowed, tv_old, cov)
             if m is not None:
                 self.violate(m[0], m[1] + " (kill at primitive %d of %d: %s)" % (k, np_, lib.prims_str(prims[:k], jm)[-120:]), inp)
             return
@@ -248,6 +249,14 @@ class Walker(object):
                     if m[0] == lib.D15_SIGNATURE:
                         cov.hit("d15_headdrop_losses")
                     self.violate(m[0], m[1] + " (kill at primitive %d of %d, +%d bytes)" % (k, np_, t), inp)
+                else:
+                    # fixed model-free tail on fresh copies of the image: drop tail, add, drop head, add, reopen /
+                    # drop everything (walks back over every record), add, reopen
+                    cov.hit("tail.expected")
+                    tl = lib.judge_tail(jm, self.tailpath, img, lib.METHOD.get(kind, kind), cov)
+                    if tl is not None:
+                        self.violate(tl[0], "%s killed at primitive %d of %d (+%d bytes; done: %s): %s"
+                                     % (op[:3], k, np_, t, lib.prims_str(prims[:k], jm)[-100:], tl[1]), dict(inp, tail=tl[2]))
                 # drive the reopened image on
                 if cont_rng is not None and img[2] is None and self.model2 is not None:
                     self.continue_from(o, img, cont_rng, inp)
@@ -328,7 +337,7 @@ class Walker(object):
                 r = lib.Real(jm, self.path, fs_hook=lambda n, when, prim: fsimgs.append((n, when, prim, lib.snapshot(self.path))))
             except Exception:                            # noqa  e.g. ValueError on a zero-length file (D74)
                 lib.remove_files(self.path)
-                m, obs = lib.judge_creation_image(jm, self.scratch, snap, ci, tv)
+                m, obs = lib.judge_creation_image(jm, self.scratch, snap, ci, tv, cov)
                 cov.hit("points.create")
                 cov.hit("points.create_zero_length")
                 if m is not None:
@@ -362,7 +371,7 @@ class Walker(object):
                 if exc is not None or killed != (k < np_) or imgB != img:
                     self.disagree("kill: files after a real kill of the creation differ from snapshot + recorded primitives", "-",
                                   "killed=%s exc=%r done=%s" % (killed, exc, lib.prims_str(done, jm)), inp)
-                m, obs = lib.judge_creation_image(jm, self.scratch, img, ci, tv)
+                m, obs = lib.judge_creation_image(jm, self.scratch, img, ci, tv, cov)
                 if m is not None:
                     self.violate(m[0], "FileJournal(path) killed at creation primitive %d of %d (+%d bytes), %s journal file%s: %s"
                                  % (k, np_, t, start, " with a stored .meta" if with_meta else "", m[1]), inp, kind="create")
@@ -392,7 +401,7 @@ class Walker(object):
                 if img in seen:
                     continue
                 seen.add(img)
-                m, obs = lib.judge_creation_image(jm, self.scratch, img, ci, tv)
+                m, obs = lib.judge_creation_image(jm, self.scratch, img, ci, tv, cov)
                 if m is not None:
                     self.violate(m[0], "FileJournal(path) killed %s %s (%s journal file%s): %s"
                                  % (when, lib.prim_str_short(prim), start, ", stored .meta" if with_meta else "", m[1]),
@@ -446,6 +455,10 @@ class Walker(object):
                     real, _killed = lib.crash_reopen(real, op[1], op[2], op[3])
                     prims = real.open_prims
                     cov.hit("walk.crashat")
+                    tl = lib.judge_tail(jm, self.tailpath, lib.snapshot(self.path), "deleteEntriesTo", cov)
+                    if tl is not None:
+                        self.violate(tl[0], "head drop %s killed at primitive %d (+%d bytes) and reopened: %s" % (op[1], op[2], op[3], tl[1]),
+                                     {"pre": list(pre) + [op], "op": ["timer"], "k": 0, "t": 0, "tail": tl[2]})
                     if os.path.exists(self.path + ".tmp"):
                         cov.hit("walk.crashat_leaves_stale_tmp")
                         if os.path.getsize(self.path + ".tmp") == 0:
@@ -595,7 +608,7 @@ def run(ctx):
                 break
             w.walk(c, ctx.rng("journal_crash/" + c["name"]), 1.0, 0.2)
             cov.hit("sequences.directed")
-        n_rand = ctx.scale(20, 1400)
+        n_rand = ctx.scale(14, 1200)
         done = 0
         for i in range(n_rand):
             if time.time() - t0 > budget or len(out["disagreements"]) >= 3 or w.over():
@@ -632,8 +645,13 @@ def run(ctx):
               ("fs_calls.delto", 20), ("fs_calls.timer", 9), ("fs_calls.settv", 9),
               # creation of the journal file
               ("points.create", 10), ("points.create_zero_length", 2), ("points.create_torn_header", 4),
-              ("points.create_with_meta", 5), ("fs_images.create", 8), ("walk.crashat_leaves_empty_tmp", 1)]
+              ("points.create_with_meta", 5), ("fs_images.create", 8), ("walk.crashat_leaves_empty_tmp", 1),
+              # fixed continuation after every crash + reopen
+              ("tail.points", 500), ("tail.steps", 3000), ("tail.after.add", 100), ("tail.after.deleteEntriesTo", 100),
+              ("tail.after.deleteEntriesFrom", 10), ("tail.after.create", 10)]
     missed = ["%s=%d<%d" % (k, cov.get(k, 0), f) for k, f in floors if cov.get(k, 0) < f]
+    if cov.get("tail.points", 0) < cov.get("tail.expected", 0):
+        missed.append("fixed tail ran on %d crash points, %d were reopened cleanly" % (cov.get("tail.points", 0), cov.get("tail.expected", 0)))
     if cov.get("fs.headdrop_calls_with_before_and_after", 0) != cov.get("fs.headdrop_calls", 0):
         missed.append("head-drop file-system calls without a before AND an after image: %d of %d have both"
                       % (cov.get("fs.headdrop_calls_with_before_and_after", 0), cov.get("fs.headdrop_calls", 0)))
@@ -728,12 +746,15 @@ def replay_crash(jm, tmp, rp):
             if r2.entries() != ref2:
                 m = ("journal.%s:list-divergence-after-crash-recovery" % rp["then"][-1][0], "journal %s list %s"
                      % (lib.short_ents(r2.entries()), lib.short_ents(ref2)))
-        return m, killed
+        if m is not None:
+            return m, killed
     finally:
         if "real" in o:
             o["real"].abandon()
         lib.remove_files(kp)
         lib.remove_files(path)
+    tl = lib.judge_tail(jm, kp, img, lib.METHOD.get(op[0], op[0]))
+    return (None if tl is None else tl[:2]), killed
 
 
 def replay(ctx, violation):
